@@ -1,24 +1,31 @@
 """Write MANIFEST.json from the table below (kept valid at all times)."""
 import json
+import re
 from pathlib import Path
 
 VERIF = Path(__file__).resolve().parents[2]
 BASELINE = "cd /repo && /venv/bin/python -m pytest -ra -q -p no:cacheprovider --timeout=900 --continue-on-collection-errors"
 
-# pid -> (technique, level text, level_note, design_ref)
-CHECKS = {
-    "C01": ("Lean 4 theorems over Int for every operand pair (IntOps/UintOps exactness, never-wraps, reflected = direct), model regenerated from celtypes.py by py2lean + bridge theorems; differential correspondence vs. the Lean driver and an independent big-int / IEEE oracle",
-            "proof: int64/uint64 + - * / % neg are proved exact-or-error for ALL integers (no bound), on definitions regenerated from celtypes.py on every run and proved equal to the model; double division by zero proved at IEEE class level; remaining double arithmetic is host IEEE, compared bit-for-bit",
-            "Lean kernel; propext/Quot.sound/Classical.choice only; py2lean translator; CPython int semantics modelled by Int.fdiv/fmod; host binary64; lark", "DESIGN.md §5 C01"),
-    "C02": ("Lean 4 theorems: truth tables, commutativity, absorption, and structural induction over ALL nestings of && || ! ?: all exists for both runners (interpreter model evI and transpiled-program denotation evC) against the Kleene specification; logical_* regenerated from celtypes.py + bridge; differential correspondence on rendered CEL",
-            "proof: both runners equal the three-valued error-absorbing specification on every logical expression tree (any depth, any list length); logical_and/or/not/condition and result()'s caught classes are regenerated from the source on every run",
-            "Lean kernel; standard axioms; py2lean; evaluator control flow hand-modelled and tied by correspondence; lark", "DESIGN.md §5 C02"),
-}
+def discover():
+    """every props module present claims its property; its PROP.manifest supplies the texts"""
+    import importlib, pkgutil, sys
+    sys.path.insert(0, str(VERIF / "py"))
+    import verif.props as pk
+    out = {}
+    for mi in sorted(pkgutil.iter_modules(pk.__path__), key=lambda m: m.name):
+        if re.fullmatch(r"c\d\d+", mi.name):
+            mod = importlib.import_module(f"verif.props.{mi.name}")
+            pr = mod.PROP
+            mf = pr.manifest
+            out[pr.pid] = (mf["technique"], mf["text"], mf["note"], mf["ref"])
+    return out
+
 
 NOT_YET = {}
 
 
 def main():
+    CHECKS = discover()
     props = [json.loads(l) for l in (VERIF / "properties.jsonl").read_text().splitlines() if l.strip()]
     checks, na = [], []
     for p in props:
